@@ -94,6 +94,15 @@ var archVals = map[string]uint32{"b64": uint32(auparse.AUDIT_ARCH_X86_64), "b32"
 	"s390x": uint32(auparse.AUDIT_ARCH_S390X), "s390": uint32(auparse.AUDIT_ARCH_S390)}
 var archReal = map[string]string{"b64": "x86_64", "b32": "i386"}
 
+// unambiguous keeps the written filter readable in one way only: "key<" followed by "=x" is the filter key<=x, so a
+// value after <, > or & does not begin with '=' (found by the thorough tier: the description said one thing, the line another)
+func unambiguous(it item) item {
+	if !it.compare && strings.HasPrefix(it.text, "=") && (it.op == "<" || it.op == ">" || it.op == "&" || it.op == "!") {
+		it.text = "e" + it.text[1:]
+	}
+	return it
+}
+
 func genItem(r *sx.Rng, list string, wantValid bool) item {
 	for {
 		c := r.Intn(100)
@@ -249,7 +258,7 @@ func genItem(r *sx.Rng, list string, wantValid bool) item {
 				continue
 			}
 		}
-		return it
+		return unambiguous(it)
 	}
 }
 
@@ -336,7 +345,7 @@ func genWatchShaped(r *sx.Rng) spec {
 	if r.Chance(1, 4) {
 		// the key as a third filter of its own, with any operator: only "=" makes a watch
 		s.keys = nil
-		s.items = append(s.items, item{field: "key", op: sx.Pick(r, []string{"=", "!=", "!=", "&", "<"}), text: safeStr(r, 1+r.Intn(6)), isStr: true})
+		s.items = append(s.items, unambiguous(item{field: "key", op: sx.Pick(r, []string{"=", "!=", "!=", "&", "<"}), text: safeStr(r, 1+r.Intn(6)), isStr: true}))
 	}
 	return s
 }
